@@ -1,4 +1,4 @@
-//@ kernel specenv serves=C12
+//@ kernel specenv serves=C12,C02
 //@ include condensed.v.rs
 //@ item src/lexer.rs impl Position members=new
 //@ item src/parser.rs impl Item members=new
